@@ -36,7 +36,10 @@ PROPS = {
              "8(m+4)(k+1)u*||A||inf*||x||inf*sqrt(n)/||f||) and, on the model kinds 0-2, with the tolerance (1e-8 / 1e-6, maxiter 1000). Complex part: Hermitian PD (M-pattern + i*skew), shifted (Mmat + i*sigma*I, |sigma| <= min a_ii) and Hermitian+imaginary-diagonal (|Im a_ii| <= Re a_ii) "
              "systems: adapter::complex_matrix entries = [re -im; im re] bitwise, SpMV on complex_range views, builtin<complex> solution (CG on the Hermitian kind, GMRES, or BiCGStab -- the latter without a convergence requirement) vs real-equivalent solution "
              "(BiCGStab on adapter::complex_matrix with 2x2 point aggregates; both truthful on the complex system, difference <= kappa_2*(2 tol + drift)). Mixed precision: amg<builtin<float>> under cg/bicgstab<builtin<double>> with default tol 1e-8, called solve(A_double,f,x), on "
-             "model problems (isotropic grids, bounded-degree graphs, contrast<=10, n<=3600, coarse_enough 3000/500/100). "
+             "model problems (isotropic grids, bounded-degree graphs, contrast<=10, n<=3600, coarse_enough 3000/500/100); the two-argument form (double Krylov method iterating on the float copy fl(A) held by "
+             "the preconditioner; default tol and a generated tighter one, 1e-10/1e-12) must report a residual that is truthful for fl(A) -- recomputed in long double from the exactly converted float values, "
+             "allowance = double-precision drift bound; kernels: backend::spmv/residual with crs<float> / tuple<float values> and double vectors vs long double reference with bound c*2^-53*sum|a||x|; the same for "
+             "float BLOCK matrices (kernels and amg<float 2x2>+cg<double 2x2> two-argument solve) is excluded as known finding F-float-block-times-double. "
              "non-trivial: block case with at least one structurally incomplete block and >=2 block rows; complex case with non-zero imaginary diagonal and n>=2; mixed case with n>=2 and an off-diagonal. "
              "distinct = distinct decoded choice sequences (64-bit hash), united over shards.",
         assumptions=["long double (64-bit mantissa) residuals and products are exact enough to act as reference for double computations",
